@@ -131,7 +131,7 @@ func checkC13(c *Ctx) {
 	checkErrorPrecedence(c, "C13.R8")
 	c.Rule("C13.R9", "the memory store offers what SQLite offers: its dequeue scan index keeps every stored message (the analysis of C05.R6, claimed here because a message that drops out of the index is still listed as queued but never dequeued, while SQLite selects from the table itself)")
 	checkOrderIndexIntegrity(c, "C13.R9")
-	c.Rule("C13.R10", "terminal timestamps agree: per operation and terminal target state (delivered, dead, canceled) the class of value written to next_run_at / NextRunAt — now, now+delay, zero, unchanged — is the same in the memory store and SQLite")
+	c.Rule("C13.R10", "terminal timestamps agree: per operation and terminal target state (delivered, dead, canceled) the class of value written to next_run_at / NextRunAt — now, now+delay, zero, unchanged — is the same in the memory store and SQLite; and per operation that can release a lease (expiry sweep, expired-lease conflict of single and batched settle calls) both backends stamp the released message from the same source — now, or the lease deadline")
 	checkTerminalTimeParity(c, "C13.R10")
 }
 
